@@ -1,13 +1,14 @@
 package binder
 
 import (
-	"github.com/gofiber/utils/v2"
 	"github.com/valyala/fasthttp"
 )
 
 // QueryBinding is the query binder for query request body.
 type QueryBinding struct {
 	EnableSplitting bool
+	// Immutable makes the binder copy keys and values out of the request buffers (Config.Immutable)
+	Immutable bool
 }
 
 // Name returns the binding name.
@@ -25,8 +26,8 @@ func (b *QueryBinding) Bind(reqCtx *fasthttp.Request, out any) error {
 			return
 		}
 
-		k := utils.UnsafeString(key)
-		v := utils.UnsafeString(val)
+		k := toString(key, b.Immutable)
+		v := toString(val, b.Immutable)
 		err = formatBindData(out, data, k, v, b.EnableSplitting, true)
 	})
 
@@ -40,4 +41,5 @@ func (b *QueryBinding) Bind(reqCtx *fasthttp.Request, out any) error {
 // Reset resets the QueryBinding binder.
 func (b *QueryBinding) Reset() {
 	b.EnableSplitting = false
+	b.Immutable = false
 }
